@@ -70,11 +70,29 @@ async fn run<const N: usize>(d: &mut Driver<N>, ops: &[Op], limit: u64) -> Out {
         if let Err(m) = d.step(op).await {
             bail!(m);
         }
+        // events recorded up to the moment the call returned: what the call itself guarantees, before the
+        // worker's follow-up work (the index dump of a closed blob syncs the blob once more)
+        let returned_at = tap::count(&d.dir);
         if !d.st().verif_barrier(true).await {
             bail!(Mismatch { class: crate::drive::Class::Worker, sig: "worker-dead".into(), detail: "worker dead".into(), step: d.step });
         }
         let ev = tap::drain(&d.dir);
-        trace.feed(&ev);
+        if let Op::Close = op {
+            let cut = returned_at.min(ev.len());
+            trace.feed(&ev[..cut]);
+            if let (Some(p), None) = (active_before.clone(), active_path(d)) {
+                if let Some(dirty) = trace.dirty(&p) {
+                    out.rule4_checks += 1;
+                    if dirty > 0 {
+                        out.violation = Some(("c12/close-active-left-dirty-bytes".into(), format!("try_close_active_blob() returned Ok while {} bytes of {} were un-synced (they were synced only later, by the worker's index dump)", dirty, p.display())));
+                        break;
+                    }
+                }
+            }
+            trace.feed(&ev[cut..]);
+        } else {
+            trace.feed(&ev);
+        }
         if let Some(v) = trace.violations.first() {
             out.violation = Some((v.rule.clone(), format!("after step {} ({}): {}", d.step, op.short(), v.detail)));
             break;
